@@ -649,8 +649,12 @@ def prefile_scenarios(rng, count, kind="sup", nq=3, nu=0, metrics=("euclidean", 
     for i in range(count):
         met = metrics[i % len(metrics)]
         scn = random_float_scenario(rng, kind=kind, metric=met, n=rng.randrange(3, 11), nu=nu, nq=nq, mode="prefile", classes=rng.choice([2, 3]),
-                                    copies=(i % 2 == 0), positive=(met in POSITIVE_METRICS))
-        if i % 3 == 0:
+                                    copies=(i % 2 == 0), positive=(met in POSITIVE_METRICS), lattice=(i % 4 == 1))
+        if i % 4 == 1:
+            scn["present"] = "int"          # integer-typed samples on a small grid: the file holds the metric's (real) values all the same
+            if met in POSITIVE_METRICS:
+                scn["Z"] = (np.array(scn["Z"]) + 1.0).tolist()
+        elif i % 3 == 0:
             scn["Z"] = (np.array(scn["Z"]) * (0.01 if i % 2 else 0.001)).tolist()
         out.append(scn)
     return out
